@@ -37,7 +37,8 @@ pub fn run(ctx: &'static Ctx) {
         let anchors = if full == 0 { vec![0] } else { vec![0, full] };
         let expect: u64 = anchors.iter().map(|m| count_deviations(&sh.plan, *m, dev_bound)).sum();
         // menu products can be large for big messages: cap the bound where the space explodes
-        let bound = if expect > 6_000_000 { dev_bound - 1 } else { dev_bound };
+        let dev_cap: u64 = if ctx.thorough() { 25_000_000 } else { 6_000_000 };
+        let bound = if expect > dev_cap { dev_bound - 1 } else { dev_bound };
         let expect: u64 = anchors.iter().map(|m| count_deviations(&sh.plan, *m, bound)).sum();
         explore(
             ctx,
